@@ -19,7 +19,7 @@ OWN = {"C06"}
 
 
 def cases(seed, tier):
-    n = 500 if tier == "quick" else 8000
+    n = 1000 if tier == "quick" else 8000
     rng = random.Random(seed * 1000003 + 6)
     for i in range(n):
         nrs = rng.choice([1, 2, 3])
